@@ -57,7 +57,9 @@ func httpResponseConstructor(self r.Element, values []r.Element) (r.Element, err
 
 	// override headers
 	if len(values) == 3 {
-		self.SetProperty("头部", values[2])
+		// like a constructor written in Zn (其头部 = 头部), the object keeps a copy: the
+		// caller's dictionary and this response stay independent
+		self.SetProperty("头部", value.DuplicateValue(values[2]))
 	}
 	return self, nil
 }
